@@ -25,6 +25,7 @@ _BUILTIN_TYPES = {t.__name__: t for t in (bool, int, float, complex, str, bytes,
 
 
 NATIVE_MODULE_CALLS = {("inspect", "getattr_static"), ("inspect", "isfunction"), ("inspect", "isclass"), ("inspect", "ismethod")}
+NATIVE_MODULE_CONSTRUCTORS = {("ast", "keyword"), ("ast", "Call"), ("ast", "Name"), ("ast", "Constant")}
 
 
 class _OpaqueIter(Exception):
@@ -958,6 +959,9 @@ class Interp:
                 return Opaque(meth)
             if isinstance(recv, __import__("types").ModuleType) and (recv.__name__, meth) in NATIVE_MODULE_CALLS and not any(isinstance(a, (Obj, Opaque, Sym)) for a in args):
                 return getattr(recv, meth)(*args)  # a pure inspection function of the standard library on real objects
+            if isinstance(recv, __import__("types").ModuleType) and (recv.__name__, meth) in NATIVE_MODULE_CONSTRUCTORS:
+                kwargs = {k.arg: self.ev(k.value) for k in e.keywords if k.arg}
+                return getattr(recv, meth)(*args, **kwargs)  # building a syntax-tree node
             raise Unsupported(e, "(method on a concrete value)")
         if not isinstance(f, (ast.Name, ast.Attribute)):
             callee = self.ev(f)
